@@ -20,6 +20,7 @@ import Compress.Proofs.FlateReset
 import Compress.Proofs.BzWApiLatch
 import Compress.Proofs.MetaWApi
 import Compress.Proofs.WrapInit
+import Compress.Bzip2.ReaderApi
 
 namespace Compress.Props.C14
 open Compress Compress.Window
@@ -124,5 +125,12 @@ example :
       { w := .bytes Compress.Proofs.Wrap.usedW, bufBits := 5, numBits := 3, offset := 9 }
     let r1 := Compress.Prefix.Wrap.WR.init (some r0) (.bytes (Compress.Proofs.Wrap.usedW.rd.reset [9, 8, 7])) false
     Compress.Proofs.Wrap.usedW.buf = [1, 2, 3, 4] ∧ (r1.w.peek 2).2.1 = [9, 8] := by decide
+open Compress.Bzip2.ReaderApi in
+/-- **bzip2.Reader: Reset = new (API-level model).** From ANY state - closed, failed, in the middle
+    of a block - Reset onto a source gives the state of a newly constructed reader on that source,
+    so every later call sequence behaves as on a fresh reader. -/
+theorem C14_bzip2_reader_reset_fresh (r : Reader) (src : Src) (ops : List Bzip2.ReaderApi.Op) :
+    r.reset src = newReader src ∧ Reader.run (r.reset src) ops = Reader.run (newReader src) ops :=
+  ⟨rfl, rfl⟩
 
 end Compress.Props.C14
